@@ -9,10 +9,10 @@ import (
 
 func init() {
 	register(&propDef{
-		ID:    "C14",
-		Level: "other",
+		ID:      "C14",
+		Level:   "other",
 		Explain: "Generator/parser agreement for commands derived from service registrations, decided by taint and structure: (T1) in consul routecmd.build every string appended to the command list that depends on data of the catalog entry (service name, tags, addresses) is appended only on the true edge of a validator call on that very string, and the validator is 'route.Parse succeeded, produced exactly one definition, and it is a route add' — so a registration that cannot be expressed (weight=abc, a tag containing a quote, a newline injecting a second command) is dropped on its own instead of poisoning the text every later table build parses; (Q1) the generator writes quoted fields the way the parser reads them (no %q/strconv.Quote while the parser takes the text verbatim); (I1) one service's failure affects only that service: serviceConfig returns only its own slice on every path, each per-service goroutine sends exactly one result, and the collector receives exactly len(m) results; (P4) a non-finite weight cannot leave the route parser (weight=Inf used to crash the process); (N1) the destination is built from ServiceAddress (node Address when empty) and ServicePort with net.JoinHostPort, and the scheme prefix comes from the proto= option table. (E1) the option text returned by parseURLPrefixTag does not pass through os.Expand; Not decided: that the parsed command denotes the registration for every value (string/URL equality after a parse).",
-		Run:   runC14,
+		Run:     runC14,
 		Trusted: []string{"route.Parse is the parser NewTable uses (same function)", "hashicorp/consul/api field contents are arbitrary strings"},
 		Mutants: []mutant{
 			{Name: "options expanded with the environment", File: "registry/consul/routecmd.go", Old: "\ts = strings.TrimSpace(s[len(prefix):])\n", New: "\ts = strings.TrimSpace(expand(s[len(prefix):]))\n", Expect: "C14.E1"},
